@@ -374,7 +374,7 @@ Ltac absurd_eq :=
   end.
 
 Lemma step_fault pool w i p f :
-  Inv pool w -> nth_error pool i = Some p -> exec New p w = Fault f -> f = SendOnClosed NDelS.
+  Inv pool w -> nth_error pool i = Some p -> exec New p w = Fault f -> False.
 Proof.
   intros HI Hn He.
   destruct_inv HI.
@@ -387,8 +387,8 @@ Proof.
            | H : match ?c with Nil => _ | _ => _ end = _ |- _ => is_var c; destruct c; try discriminate H
            end;
     try no_section Hokc; try no_section Hokv;
-    inversion He; subst; clear He; try reflexivity;
-    exfalso; cbn in *; try absurd_eq; ge_facts Hn; arith.
+    inversion He; subst; clear He;
+    cbn in *; try absurd_eq; ge_facts Hn; arith.
 Qed.
 
 (* ------------------------------------------------------------------------------------------ *)
@@ -425,19 +425,19 @@ Qed.
 (* ------------------------------------------------------------------------------------------ *)
 (* channels_closed_once                                                                         *)
 Lemma run_inv sched : forall pool w, Inv pool w ->
-  match run New sched pool w with Running pool' w' => Inv pool' w' | Faulted f _ => f = SendOnClosed NDelS end.
+  match run New sched pool w with Running pool' w' => Inv pool' w' | Faulted f _ => False end.
 Proof.
-  apply (run_ind_inv New Inv (fun f => f = SendOnClosed NDelS)).
+  apply (run_ind_inv New Inv (fun _ => False)).
   - intros; eapply step_inv; eauto.
   - intros; eapply step_fault; eauto.
 Qed.
 
-Lemma channels_closed_once_partial cpk spk chm rch cbk calls sched f t :
+Lemma channels_closed_once cpk spk chm rch cbk calls sched :
   forallb entry calls = true ->
-  run New sched (pool0 calls) (world0 cpk spk chm rch cbk) = Faulted f t -> f = SendOnClosed NDelS.
+  faulted (run New sched (pool0 calls) (world0 cpk spk chm rch cbk)) = false.
 Proof.
-  intros E H. pose proof (run_inv sched _ _ (inv_init cpk spk chm rch cbk calls E)) as R.
-  rewrite H in R. exact R.
+  intros E. pose proof (run_inv sched _ _ (inv_init cpk spk chm rch cbk calls E)) as R.
+  destruct (run New sched (pool0 calls) (world0 cpk spk chm rch cbk)); [reflexivity | contradiction].
 Qed.
 
 Lemma reachable_inv cpk spk chm rch cbk calls sched pool w :
@@ -449,7 +449,7 @@ Proof.
 Qed.
 
 (* ------------------------------------------------------------------------------------------ *)
-(* without a server teardown among the calls nothing faults at all                              *)
+(* the threads of a server teardown (used by the second invariant) *)
 Definition ret_td (r : ret) : bool := match r with RDone => false | _ => true end.
 Definition srv_td (p : pc) : bool :=
   match p with
@@ -460,29 +460,6 @@ Definition srv_td (p : pc) : bool :=
   | _ => false
   end.
 
-Record InvNS (pool : list pc) (w : world) : Prop := {
-  ns_ctx : sctx_done w = false;
-  ns_cnt : cnt srv_td pool = 0;
-  ns_dels : sv_dels w = Open
-}.
-
-Lemma step_ns pool w i p w' p' :
-  InvNS pool w -> nth_error pool i = Some p -> exec New p w = Step w' p' -> InvNS (set_nth i p' pool) w'.
-Proof.
-  intros [H1 H2 H3] Hn He.
-  pose proof (cnt_ge srv_td pool i p Hn) as G.
-  pose proof (cnt_set_nth srv_td pool i p p' Hn) as C.
-  destruct w as [c v li dq cx rc c2 cb ss g1 g2 g3 lcg lcd lwc ld sk lx rn sx ac dl n1 n2 n3 n4 n5].
-  cbn in H1, H3. subst sx n3.
-  destruct p; cbn in G; try (exfalso; lia);
-    try (destruct r; cbn in G; try (exfalso; lia));
-    try (destruct d);
-    cbn in He;
-    repeat (break_match_hyp He; try discriminate);
-    inversion He; subst; clear He; cbn in C;
-    (constructor; cbn; first [reflexivity | lia]).
-Qed.
-
 Lemma section_fault_kind s f : shutdown_section s = inr f -> is_remove_race f = false.
 Proof.
   unfold shutdown_section, close_fault. intros H.
@@ -491,54 +468,6 @@ Proof.
          end;
   repeat match goal with H : Some _ = Some _ |- _ => inversion H; clear H; subst end;
   inversion H; subst; reflexivity.
-Qed.
-
-Lemma step_ns_fault pool w p :
-  InvNS pool w -> exec New p w = Fault (SendOnClosed NDelS) -> False.
-Proof.
-  intros [H1 H2 H3] He.
-  destruct w as [c v li dq cx rc c2 cb ss g1 g2 g3 lcg lcd lwc ld sk lx rn sx ac dl n1 n2 n3 n4 n5].
-  cbn in H1, H3. subst sx n3.
-  destruct p; try (destruct d); cbn in He; unfold close_fault in He;
-    repeat match goal with
-           | H : context [match ?X with _ => _ end] |- _ => destruct X eqn:?; try discriminate
-           end;
-    repeat match goal with H : Some _ = Some _ |- _ => inversion H; clear H; subst end;
-    try (inversion He; subst; discriminate);
-    match goal with E : shutdown_section _ = inr _ |- _ =>
-      apply section_fault_kind in E; inversion He; subst; discriminate E end.
-Qed.
-
-Definition entry_ns (p : pc) : bool := entry p && negb (srv_td p).
-
-Lemma entry_ns_entry calls : forallb entry_ns calls = true -> forallb entry calls = true.
-Proof.
-  induction calls; simpl; auto. unfold entry_ns at 1. intros H.
-  apply andb_prop in H. destruct H as [H1 H2]. apply andb_prop in H1. destruct H1 as [H1 _].
-  rewrite H1. simpl. auto.
-Qed.
-
-Lemma cnt_entry_ns calls : forallb entry_ns calls = true -> cnt srv_td calls = 0.
-Proof.
-  induction calls; simpl; auto. unfold entry_ns at 1. intros H.
-  apply andb_prop in H. destruct H as [H1 H2]. apply andb_prop in H1. destruct H1 as [_ H1].
-  destruct (srv_td a); simpl in *; try discriminate. auto.
-Qed.
-
-Lemma channels_closed_once_sessions cpk spk chm rch cbk calls sched :
-  forallb entry_ns calls = true ->
-  faulted (run New sched (pool0 calls) (world0 cpk spk chm rch cbk)) = false.
-Proof.
-  intros E.
-  pose proof (run_ind_inv New (fun pool w => Inv pool w /\ InvNS pool w) (fun _ => False)) as R.
-  assert (I0 : Inv (pool0 calls) (world0 cpk spk chm rch cbk) /\ InvNS (pool0 calls) (world0 cpk spk chm rch cbk)).
-  { split. apply inv_init. apply entry_ns_entry; auto.
-    constructor; try reflexivity. unfold pool0. rewrite cnt_app, (cnt_entry_ns _ E). reflexivity. }
-  specialize (R ltac:(intros ? ? ? ? ? ? [A B] ? ?; split; [eapply step_inv | eapply step_ns]; eauto)).
-  specialize (R ltac:(intros ? ? ? ? ? [A B] Hn He;
-                      pose proof (step_fault _ _ _ _ _ A Hn He); subst; eapply step_ns_fault; eauto)).
-  specialize (R sched _ _ I0).
-  destruct (run New sched (pool0 calls) (world0 cpk spk chm rch cbk)); simpl; auto. contradiction.
 Qed.
 
 (* ------------------------------------------------------------------------------------------ *)
@@ -678,12 +607,15 @@ Lemma final_notice_repaired :
   notice_lost (run New sched_notice_lost (pool0 [CC0 true; CX]) w_reg) = false.
 Proof. vm_compute. reflexivity. Qed.
 
-(* what the repaired tree can still do: Remove's unlocked IsActive test, then the whole
-   Server.shutdown (which closes delSession), then Remove's send *)
+(* (5) Remove's unlocked IsActive test, then the whole Server.shutdown (which closes delSession),
+       then Remove's send *)
 Definition sched_remove_race : list nat := rep 5 5 ++ [6; 6] ++ rep 13 2 ++ rep 5 3 ++ rep 7 2 ++ [5].
 Lemma remove_race_refuted :
-  run New sched_remove_race (pool0 [SH0 false; SV0]) (world0 false false false true false)
+  run Old sched_remove_race (pool0 [SH0 false; SV0]) (world0 false false false true false)
   = Faulted (SendOnClosed NDelS) 5.
+Proof. vm_compute. reflexivity. Qed.
+Lemma remove_race_repaired :
+  faulted (run New sched_remove_race (pool0 [SH0 false; SV0]) (world0 false false false true false)) = false.
 Proof. vm_compute. reflexivity. Qed.
 
 (* non-vacuity: three concurrent calls (client Close, server-side Close, context cancel) under the
@@ -722,6 +654,7 @@ Record Inv2 (pool : list pc) (w : world) : Prop := {
   j_nt2 : b2n (closed (cli w)) <= notified w;
   j_fg : b2n (closed (srv w)) <= b2n (negb (listed w)) + delq w + cnt at_sd12_srv pool + b2n (sctx_done w);
   j_dn : b2n (is_closed (sv_done w)) <= b2n (sctx_done w);
+  j_ds : b2n (is_closed (sv_dels w)) <= b2n (sctx_done w);
   j_td : b2n (sctx_done w) = 0 -> cnt td19 pool = 0;
   j_cc : b2n (closing (cli w)) = 0 -> cnt at_cc35 pool = 0;
   j_lc : b2n (l_closing w) = 0 -> cnt at_lc24 pool = 0;
@@ -766,7 +699,7 @@ Proof.
   intros HI HJ Hn He.
   pose proof (i_l1 _ _ HI) as Hl1. pose proof (i_okc _ _ HI) as Hokc. pose proof (i_okv _ _ HI) as Hokv.
   clear HI.
-  destruct HJ as [Jpk Jnt1 Jnt2 Jfg Jdn Jtd Jcc Jlc Jo].
+  destruct HJ as [Jpk Jnt1 Jnt2 Jfg Jdn Jds Jtd Jcc Jlc Jo].
   destruct_world w.
   unfold notified, reachable in *. cbn in *.
   destruct p; destruct_pc_args; try (destruct x); try (destruct g); try (destruct w); cbn in He;
@@ -795,9 +728,9 @@ Qed.
 Definition Inv12 (pool : list pc) (w : world) : Prop := Inv pool w /\ Inv2 pool w.
 
 Lemma run_inv12 sched : forall pool w, Inv12 pool w ->
-  match run New sched pool w with Running pool' w' => Inv12 pool' w' | Faulted f _ => f = SendOnClosed NDelS end.
+  match run New sched pool w with Running pool' w' => Inv12 pool' w' | Faulted f _ => False end.
 Proof.
-  apply (run_ind_inv New Inv12 (fun f => f = SendOnClosed NDelS)).
+  apply (run_ind_inv New Inv12 (fun _ => False)).
   - intros ? ? ? ? ? ? [A B] ? ?; split; [eapply step_inv | eapply step_inv2]; eauto.
   - intros ? ? ? ? ? [A B] ? ?; eapply step_fault; eauto.
 Qed.
@@ -815,7 +748,7 @@ Qed.
 Lemma peer_notified_inv pool w :
   Inv2 pool w -> closed (cli w) = true -> reachable w = true -> sent_shut w = true.
 Proof.
-  intros [_ _ J _ _ _ _ _ _] Hc Hr. unfold notified, reachable in *.
+  intros [_ _ J _ _ _ _ _ _ _] Hc Hr. unfold notified, reachable in *.
   rewrite Hc in J. apply andb_prop in Hr. destruct Hr as [Hr1 Hr2].
   rewrite Hr1 in J. apply negb_true_iff in Hr2. rewrite Hr2 in J. simpl in J.
   destruct (sent_shut w); auto. simpl in J. lia.
@@ -827,7 +760,7 @@ Lemma server_forgets_inv pool w :
   Inv2 pool w -> closed (srv w) = true -> sctx_done w = false -> delq w = 0 -> cnt at_sd12_srv pool = 0 ->
   listed w = false.
 Proof.
-  intros [_ _ _ J _ _ _ _ _] Hc Hs Hd Hn. rewrite Hc, Hs, Hd, Hn in J. simpl in J.
+  intros [_ _ _ J _ _ _ _ _ _] Hc Hs Hd Hn. rewrite Hc, Hs, Hd, Hn in J. simpl in J.
   destruct (listed w); auto. simpl in J. lia.
 Qed.
 
@@ -905,15 +838,7 @@ Proof.
     all: try no_section Hokc.
     all: try (match goal with H : Closing _ = false |- _ =>
                 unfold Closing in H; cbn in H; rewrite orb_true_r in H; discriminate H end).
-  - pose proof (step_fault _ _ _ _ _ HI Hn E). subst f. exfalso.
-    destruct p; try discriminate Hl; try (destruct d; try discriminate Hl); cbn in E; unfold close_fault in E;
-      repeat match goal with
-             | H : context [match ?X with _ => _ end] |- _ => destruct X eqn:?; try discriminate
-             end;
-      repeat match goal with H : Some _ = Some _ |- _ => inversion H; clear H; subst end;
-      try (inversion E; subst; discriminate);
-      match goal with A : shutdown_section _ = inr _ |- _ =>
-        apply section_fault_kind in A; inversion E; subst; discriminate A end.
+  - exfalso. eapply step_fault; eauto.
 Qed.
 
 (* a goroutine (thread k of the pool) that, while [cond] holds, can always take its next step
@@ -1022,13 +947,7 @@ Proof.
   - exfalso. destruct_world w. cbn in Hc. subst lcg.
     destruct p; try discriminate Hl; try congruence; cbn in E; rewrite ?orb_true_r in E;
       repeat (break_match_hyp E; try discriminate); try discriminate E.
-  - pose proof (step_fault _ _ _ _ _ HI Hn E). subst f. exfalso.
-    destruct p; try discriminate Hl; cbn in E; unfold close_fault in E;
-      repeat match goal with
-             | H : context [match ?X with _ => _ end] |- _ => destruct X eqn:?; try discriminate
-             end;
-      repeat match goal with H : Some _ = Some _ |- _ => inversion H; clear H; subst end;
-      try (inversion E; subst; discriminate).
+  - exfalso. eapply step_fault; eauto.
 Qed.
 
 Lemma keeps_listener p w w' p' :
@@ -1112,9 +1031,9 @@ Proof.
 Qed.
 
 Lemma run_inv3 sched : forall pool w, Inv3 pool w ->
-  match run New sched pool w with Running pool' w' => Inv3 pool' w' | Faulted f _ => f = SendOnClosed NDelS end.
+  match run New sched pool w with Running pool' w' => Inv3 pool' w' | Faulted f _ => False end.
 Proof.
-  apply (run_ind_inv New Inv3 (fun f => f = SendOnClosed NDelS)).
+  apply (run_ind_inv New Inv3 (fun _ => False)).
   - intros ? ? ? ? ? ? (A & B & C) ? ?; split; [|split];
       [eapply step_inv | eapply step_inv2 | eapply step_invL]; eauto.
   - intros ? ? ? ? ? (A & B & C) ? ?; eapply step_fault; eauto.
@@ -1300,10 +1219,4 @@ Proof.
   split; [apply (i_okc _ _ HI) | apply (i_okv _ _ HI)].
 Qed.
 
-Lemma channels_closed_once_refuted :
-  exists calls sched, forallb entry calls = true /\
-    faulted (run New sched (pool0 calls) (world0 false false false true false)) = true.
-Proof.
-  exists [SH0 false; SV0], sched_remove_race. split; [reflexivity|].
-  rewrite remove_race_refuted. reflexivity.
-Qed.
+
